@@ -114,6 +114,7 @@ type World struct {
 	curTag  string
 	panicked bool
 	unconf  map[[2]uintptr]bool
+	pending []Step
 	outs    map[int]bool
 	touched bool
 	// Repair makes the world continue after a failure (resync + rebuild).
@@ -148,14 +149,26 @@ func (w *World) Close() {
 
 func (w *World) probe(name string) { w.St.Probes[name]++ }
 
-func (w *World) fail(prop, oracle, class, detail string) {
-	f := Failure{Prop: prop, Oracle: oracle, Op: w.curOp, Class: classOf(class), Detail: detail, Step: w.step}
-	if prop != w.Cfg.Prop {
+// fail records a violated postcondition. prop may name several properties
+// ("C07+C02") when their statements both literally entail the postcondition.
+// Returns true when the failure belongs to the property being checked.
+func (w *World) fail(prop, oracle, class, detail string) bool {
+	props := strings.Split(prop, "+")
+	mine := false
+	for _, p := range props {
+		if p == w.Cfg.Prop {
+			mine = true
+		}
+	}
+	f := Failure{Prop: props[0], Oracle: oracle, Op: w.curOp, Class: classOf(class), Detail: detail, Step: w.step}
+	if !mine {
 		w.St.Foreign++
 		w.St.ForeignSigs[f.Sig()]++
-		return
+		return false
 	}
+	f.Prop = w.Cfg.Prop
 	w.Fails = append(w.Fails, f)
+	return true
 }
 
 // faultAddr extracts the faulting address of a memory-fault panic.
@@ -318,6 +331,16 @@ func (w *World) checkOutput(i int, tag string) {
 	}
 }
 
+// interferenceTag: one bitmap changing because another was written is C07; when
+// the writing step is one of C02's own calls (mutations, Clone, SetCopyOnWrite ...)
+// the changed bitmap also no longer equals the replay of its own history (C02).
+func (w *World) interferenceTag() string {
+	if w.curTag == "C02" {
+		return "C07+C02"
+	}
+	return "C07"
+}
+
 // readFault attributes a memory fault met while reading a bitmap's contents:
 // inside a simulated region it is that region's property (a dependency on a
 // buffer that was detached and discarded, or an over-read).
@@ -374,7 +397,7 @@ func (w *World) afterStep(primaryTag string) {
 				case w.curOp == "gc":
 					w.fail("C02", "gc-lifetime", "contents changed across a garbage collection ("+o.Prov+")", fmt.Sprintf("slot %d (%s) changed during a collection: %s", i, o.Prov, d))
 				default:
-					w.fail("C07", "bystander", "bitmap not involved as output changed", fmt.Sprintf("slot %d (%s) changed during %s: %s", i, o.Prov, w.curOp, d))
+					w.fail(w.interferenceTag(), "bystander", "bitmap not involved as output changed", fmt.Sprintf("slot %d (%s) changed during %s: %s", i, o.Prov, w.curOp, d))
 				}
 			}
 			w.rebuild(i)
@@ -402,14 +425,19 @@ func (w *World) validate32(i int) {
 		return
 	}
 	walk := walk32(o.BM)
+	// An ill-formed object is rebuilt only when C09 is the property under check
+	// (first-cause attribution); otherwise it stays, so that its consequences for
+	// the property under check (a failing round trip, a wrong result) are seen.
 	if verr != nil {
-		w.fail("C09", "validate", verr.Error(), fmt.Sprintf("slot %d (%s) after %s: Validate()=%v; walk=%q", i, o.Prov, w.curOp, verr, walk))
-		w.rebuild(i)
+		if w.fail("C09", "validate", verr.Error(), fmt.Sprintf("slot %d (%s) after %s: Validate()=%v; walk=%q", i, o.Prov, w.curOp, verr, walk)) {
+			w.rebuild(i)
+		}
 		return
 	}
 	if walk != "" {
-		w.fail("C09", "walk", walk, fmt.Sprintf("slot %d (%s) after %s: Validate()=nil but invariant walk says %s", i, o.Prov, w.curOp, walk))
-		w.rebuild(i)
+		if w.fail("C09", "walk", walk, fmt.Sprintf("slot %d (%s) after %s: Validate()=nil but invariant walk says %s", i, o.Prov, w.curOp, walk)) {
+			w.rebuild(i)
+		}
 	}
 }
 
@@ -515,7 +543,7 @@ func (w *World) sizeBound32(i int) {
 			w.fail("C14", "size-bound", "exceeds BoundSerializedSizeInBytes "+when, fmt.Sprintf("slot %d after %s: size %d > Bound(%d,%d)=%d (%s)", i, w.curOp, sz, n, x, b, when))
 		}
 	}
-	before := len(w.Fails) + w.St.Foreign
+	beforeMine := len(w.Fails)
 	chk(o.BM, "as is")
 	if w.step%4 == 0 || w.Cfg.Profile == "C14" {
 		var c *roaring.Bitmap
@@ -523,7 +551,7 @@ func (w *World) sizeBound32(i int) {
 			chk(c, "after RunOptimize")
 		}
 	}
-	if len(w.Fails)+w.St.Foreign != before {
+	if len(w.Fails) != beforeMine {
 		w.rebuild(i)
 	}
 }
@@ -623,8 +651,14 @@ func (w *World) Exec(st *Step) {
 	w.step++
 }
 
-// Generate draws the next step from the seed and the current state.
+// Generate draws the next step from the seed and the current state. Scenario
+// generators may queue follow-up steps (w.pending), which are delivered first.
 func (w *World) Generate(r *Rng) Step {
+	if len(w.pending) > 0 {
+		st := w.pending[0]
+		w.pending = w.pending[1:]
+		return st
+	}
 	prof := profiles[w.Cfg.Profile]
 	if prof == nil {
 		prof = profiles["default"]
@@ -633,7 +667,9 @@ func (w *World) Generate(r *Rng) Step {
 		name := prof.names[r.Pick(prof.weights)]
 		def := opTable[name]
 		if st, ok := def.gen(w, r); ok {
-			st.Op = name
+			if st.Op == "" {
+				st.Op = name
+			}
 			return st
 		}
 	}
